@@ -1,0 +1,143 @@
+//go:build verif
+
+package hsms
+
+// Verification hooks for the connection-lifecycle properties (C10 / C11). Add-only, compiled only
+// with -tags verif; nothing here is referenced by the production build.
+
+import (
+	"reflect"
+	"time"
+)
+
+// VerifNextBackoffDelay exposes the pure reconnect-backoff step (nextBackoffDelay) for the
+// differential check against the Lean model's integer clamp.
+func VerifNextBackoffDelay(cur time.Duration, multiplier float64, ceil time.Duration) time.Duration {
+	return nextBackoffDelay(cur, multiplier, ceil)
+}
+
+// VerifLifeSnapshot is a read-only snapshot of the lifecycle fences of a connection. Every field is
+// read through the same atomics / channels the library itself uses, so taking a snapshot never
+// perturbs the connection and is race-free.
+type VerifLifeSnapshot struct {
+	Shutdown     bool   // connection.shutdown
+	ReconnectGen uint64 // connection.reconnectGen
+	HasCur       bool   // cur != nil
+	CurID        uint64 // harness-stable identity of the current epoch (address based, 0 = none)
+	CurCancelled bool   // cur.ctx cancelled (teardown started)
+	CurDone      bool   // cur.done closed (bounded join completed)
+	HasSup       bool   // sup != nil
+	SupStopped   bool   // sup.runDone closed
+	State        ConnState
+	Reconnects   uint64
+	Reconnecting int64
+}
+
+// verifUnwrap finds the concrete engine behind a Connection value. hsmsss / secs1 wrap the engine in
+// a struct that embeds the hsms.Connection interface as an exported field named Connection.
+func verifUnwrap(c Connection) *connection {
+	for depth := 0; depth < 4 && c != nil; depth++ {
+		if cc, ok := c.(*connection); ok {
+			return cc
+		}
+
+		v := reflect.ValueOf(c)
+		if v.Kind() == reflect.Pointer {
+			v = v.Elem()
+		}
+
+		if v.Kind() != reflect.Struct {
+			return nil
+		}
+
+		f := v.FieldByName("Connection")
+		if !f.IsValid() || !f.CanInterface() {
+			return nil
+		}
+
+		next, ok := f.Interface().(Connection)
+		if !ok {
+			return nil
+		}
+
+		c = next
+	}
+
+	return nil
+}
+
+// VerifLifeProbe reports whether c is (or wraps) the shared engine, i.e. whether the snapshot and
+// loop-hook functions below will work for it.
+func VerifLifeProbe(c Connection) bool { return verifUnwrap(c) != nil }
+
+// VerifLifeSnap takes a snapshot of c's lifecycle fences (zero value if c is not the shared engine).
+func VerifLifeSnap(c Connection) VerifLifeSnapshot {
+	cc := verifUnwrap(c)
+	if cc == nil {
+		return VerifLifeSnapshot{}
+	}
+
+	var s VerifLifeSnapshot
+	s.Shutdown = cc.shutdown.Load()
+	s.ReconnectGen = cc.reconnectGen.Load()
+
+	if e := cc.cur.Load(); e != nil {
+		s.HasCur = true
+		s.CurID = uint64(reflect.ValueOf(e).Pointer())
+		s.CurCancelled = e.ctx.Err() != nil
+
+		select {
+		case <-e.done:
+			s.CurDone = true
+		default:
+		}
+	}
+
+	if sup := cc.sup.Load(); sup != nil {
+		s.HasSup = true
+		s.State = sup.State()
+
+		select {
+		case <-sup.runDone:
+			s.SupStopped = true
+		default:
+		}
+	}
+
+	s.Reconnects = cc.metrics.Reconnects()
+	s.Reconnecting = cc.metrics.Reconnecting()
+
+	return s
+}
+
+// VerifSetConnectLoopHook installs fn as the reconnect loop's existing test seam
+// (connection.testHookConnectLoop: called once per dial attempt, after the backoff sleep and before
+// the F3/G2 fence). It must be called BEFORE the first Open (the field is a plain func read by the
+// loop goroutine; setting it before Open orders the write before every loop via the go statement).
+// It returns false if c is not the shared engine.
+func VerifSetConnectLoopHook(c Connection, fn func()) bool {
+	cc := verifUnwrap(c)
+	if cc == nil {
+		return false
+	}
+
+	cc.testHookConnectLoop = fn
+
+	return true
+}
+
+// VerifLockPublishMu acquires the connection's publishMu (the mutex that linearises the reconnect
+// loop's {fence; ArmStart; publish} against Close's {fence; re-pin}) and returns its unlock function.
+// The harness uses it to park both contenders at that mutex and release them in a chosen order, so
+// the I1 linearisation is exercised deterministically on the real code. ok is false if c is not the
+// shared engine.
+func VerifLockPublishMu(c Connection) (unlock func(), ok bool) {
+	cc := verifUnwrap(c)
+	if cc == nil {
+		return func() {}, false
+	}
+
+	cc.publishMu.Lock()
+
+	return cc.publishMu.Unlock, true
+}
